@@ -429,13 +429,13 @@ Proof.
     replace (S n - 1)%nat with n by lia. rewrite S_INR. lra.
 Qed.
 
-Lemma Phi_half : GaussFacts Phi Phiinv -> Phi 0 = / 2.
-Proof. intros GF. pose proof (gf_sym _ _ GF 0) as E. rewrite Ropp_0 in E. lra. Qed.
-Lemma Phi_le : GaussFacts Phi Phiinv -> forall x y, x <= y -> Phi x <= Phi y.
-Proof. intros GF x y [H| ->]; [left; now apply (gf_mono _ _ GF)|lra]. Qed.
+Lemma Phi_half : GaussCDF Phi Phiinv -> Phi 0 = / 2.
+Proof. intros GF. pose proof (gc_sym _ _ GF 0) as E. rewrite Ropp_0 in E. lra. Qed.
+Lemma Phi_le : GaussCDF Phi Phiinv -> forall x y, x <= y -> Phi x <= Phi y.
+Proof. intros GF x y [H| ->]; [left; now apply (gc_mono _ _ GF)|lra]. Qed.
 
 (** the margin is positive on the valid domain *)
-Lemma margin_pos beta np : GaussFacts Phi Phiinv -> 0 < beta -> (2 <= np)%nat -> 0 < margin beta np.
+Lemma margin_pos beta np : GaussCDF Phi Phiinv -> 0 < beta -> (2 <= np)%nat -> 0 < margin beta np.
 Proof.
   intros GF Hb Hn. unfold margin.
   assert (H2 : 2 <= INR np) by (change 2 with (INR 2); now apply le_INR).
@@ -447,7 +447,7 @@ Proof.
   assert (Hq : 0 < Phiinv p).
   { destruct (Rlt_dec 0 (Phiinv p)) as [|Hn0]; [assumption|exfalso].
     assert (Hle : Phi (Phiinv p) <= Phi 0) by (apply Phi_le; [exact GF|lra]).
-    rewrite (gf_inv _ _ GF) in Hle by lra. rewrite Phi_half in Hle by exact GF. lra. }
+    rewrite (gc_inv _ _ GF) in Hle by lra. rewrite Phi_half in Hle by exact GF. lra. }
   apply Rmult_lt_0_compat; [apply Rmult_lt_0_compat|]; assumption.
 Qed.
 End RPred.
